@@ -497,12 +497,15 @@ func (w *idWorld) sign(ref string) {
 
 // errorEvidence: all validators attest that the relay of one message failed; the message is
 // removed from the queue (and a SubmitLogicCall is re-enqueued under a NEW id, up to 2 retries).
-func (w *idWorld) errorEvidence(q string) {
+func (w *idWorld) errorEvidence(q string, newest bool) {
 	msgs := w.queueMsgs(q)
 	if len(msgs) == 0 {
 		return
 	}
 	m := msgs[w.r.Intn(len(msgs))]
+	if newest {
+		m = msgs[len(msgs)-1]
+	}
 	var pm gogoproto.Message = &evmtypes.SmartContractExecutionErrorProof{ErrorMessage: "execution reverted"}
 	switch queueKind(q) {
 	case "reference-block":
@@ -528,6 +531,25 @@ func (w *idWorld) errorEvidence(q string) {
 	w.rec.Count("ops/error_evidence_rounds", 1)
 	w.note("evidence (%T) for %s #%d", pm, q, m.GetId())
 	w.block("error evidence " + q)
+}
+
+// newestLiveQueue: the queue (of a chain that currently exists) holding the highest id in the store.
+func (w *idWorld) newestLiveQueue() (string, bool) {
+	var best entry
+	found := false
+	for e := range w.live {
+		parts := strings.Split(e.Queue, "/")
+		if len(parts) != 3 || !w.active[parts[1]] {
+			continue
+		}
+		if !found || e.ID > best.ID {
+			best, found = e, true
+		}
+	}
+	if found && best.ID == w.hw {
+		w.rec.Count("ops/newest_message_attested", 1)
+	}
+	return best.Queue, found
 }
 
 func (w *idWorld) delegate() {
@@ -671,8 +693,22 @@ func runIDs(c fw.Case, tier string, rec *fw.Recorder) {
 		case x < 55:
 			w.sign(ref)
 		case x < 67:
+			if r.Intn(2) == 0 {
+				// the newest message of the whole chain is attested and leaves its queue, then the
+				// next message is created: the freshly freed id must not be handed out again
+				if q, ok := w.newestLiveQueue(); ok {
+					w.errorEvidence(q, true)
+					w.block("after attestation of the newest message")
+					if r.Intn(2) == 0 {
+						w.execJob(ref)
+					} else {
+						w.scheduledDirect(ref)
+					}
+				}
+				break
+			}
 			qs := []string{world.TurnstoneQueue(ref), world.TurnstoneQueue(ref), world.QueueName("validators-balances", ref), world.QueueName("reference-block", ref)}
-			w.errorEvidence(qs[r.Intn(len(qs))])
+			w.errorEvidence(qs[r.Intn(len(qs))], false)
 		case x < 75:
 			w.delegate()
 			w.skipTo(50, "to next snapshot")
@@ -722,9 +758,6 @@ func runIDs(c fw.Case, tier string, rec *fw.Recorder) {
 	for k, v := range ch.Log.Distinct() {
 		if strings.HasPrefix(k, "ERROR") && strings.Contains(k, "queue") {
 			rec.Count("log/"+k, int64(v))
-		}
-		if !strings.HasPrefix(k, "INFO") {
-			fmt.Printf("LOG %6d %s\n", v, k)
 		}
 	}
 	_ = sdkmath.ZeroInt
